@@ -266,6 +266,8 @@ class Interp:
             return True
         if isinstance(v, self.models.STuple):
             return self.truth(v.b)
+        if type(v).__name__ == "SymList":
+            return self.path.decide(v.n0 + len(v.tail) > 0)
         if isinstance(v, SStr):
             raise Unsupported("truth value of opaque string")
         if isinstance(v, SVal):
